@@ -118,6 +118,19 @@ class Lib:
                 conv.append(a)
         return f(*conv)
 
+    # ---- floating-point environment of the thread (rounding mode, flush-to-zero, denormals-are-zero)
+    def fpenv(self):
+        return int(self.fn("vh_fpenv_get", "w ", self.vh)())
+
+    def fpenv_check(self, before):
+        """Returns None if the control state is what it was, else a description; restores it in that case (the harness computes its
+        expectations in this thread too)."""
+        now = self.fpenv()
+        if now == before:
+            return None
+        self.fn("vh_fpenv_set_control", "v w", self.vh)(before)
+        return "the floating-point control state of the thread changed from 0x%04x to 0x%04x (rounding mode / flush-to-zero / denormals-are-zero left set)" % (before, now)
+
     # ---- hooks
     def set_cpu_mask(self, mask):
         self.call("spqlios_verif_set_cpu_mask", mask)
